@@ -113,28 +113,22 @@ func (o *Once) Do(f func()) {
 
 // Pool replaces sync.Pool in woven code. The real pool hands objects out per
 // P, which is both an uncontrolled source of nondeterminism and a way for two
-// goroutines to end up with one object; in a scheduled run the simulated pool
-// is one LIFO shared by all tasks (an object is available to every task the
-// moment it is put back) and Get/Put are scheduling points. Outside scheduled
-// runs it is the real thing.
+// goroutines to end up with one object; the simulated pool is one LIFO shared
+// by all tasks (an object is available to every task the moment it is put
+// back, and is never dropped), the same in sequential reference runs and under
+// the scheduler, where Get/Put are scheduling points as well.
 type Pool struct {
 	New  func() any
-	real sync.Pool
 	mu   sync.Mutex
 	free []any
 }
 
 func (p *Pool) Get() any {
-	if mode.Load() != modeSched {
-		if x := p.real.Get(); x != nil {
-			return x
-		}
-		if p.New != nil {
-			return p.New()
-		}
-		return nil
+	// a LIFO free list in every mode: legal sync.Pool behaviour, and the same
+	// in the sequential reference runs as under the scheduler
+	if mode.Load() == modeSched {
+		syncYield()
 	}
-	syncYield()
 	p.mu.Lock()
 	var x any
 	if n := len(p.free); n > 0 {
@@ -152,14 +146,12 @@ func (p *Pool) Put(x any) {
 	if x == nil {
 		return
 	}
-	if mode.Load() != modeSched {
-		p.real.Put(x)
-		return
-	}
 	p.mu.Lock()
 	p.free = append(p.free, x)
 	p.mu.Unlock()
-	syncYield()
+	if mode.Load() == modeSched {
+		syncYield()
+	}
 }
 
 // OnceFunc, OnceValue and OnceValues replace their package sync namesakes in
